@@ -149,7 +149,7 @@ fn u128_product(shape: &[usize]) -> Option<u128> {
 /// Clause (3): every constant's dims multiply (in u128) to exactly the length
 /// of its backing storage, and the largest offset its layout can produce lies
 /// inside that storage.
-fn check_constant(c: &Constant, where_: &str, out: &mut CaseOut) {
+fn check_constant(c: &Constant, where_: &str, exact: bool, out: &mut CaseOut) {
     let shape = c.shape().to_vec();
     let strides = c.layout().strides().to_vec();
     let (backing, esize): (usize, usize) = match c {
@@ -166,13 +166,22 @@ fn check_constant(c: &Constant, where_: &str, out: &mut CaseOut) {
         );
     }
     let prod = u128_product(&shape);
-    let prod_ok = prod == Some(backing as u128);
+    // `exact`: the constant comes straight from the file (non-optimising load):
+    // the loaders promise shape product == data length. Constants created by
+    // constant propagation may be non-contiguous views of a larger buffer (e.g.
+    // the output of Slice): there the element count must fit the storage and
+    // the maximal-offset clause below decides.
+    let prod_ok = match prod {
+        Some(p) if exact => p == backing as u128,
+        Some(p) => p <= backing as u128,
+        None => false,
+    };
     match prod {
         None => out.fail(
             "constant:dims-product-overflows-u128",
             format!("{where_}: constant {name:?} has shape {shape:?} whose element count does not fit in 128 bits; backing data has {backing} elements"),
         ),
-        Some(p) if p != backing as u128 => {
+        Some(p) if !prod_ok => {
             let class = if p > usize::MAX as u128 { "constant:dims-product-overflows-usize" } else { "constant:elements-mismatch" };
             out.fail(
                 class,
@@ -233,16 +242,16 @@ fn sorted_nodes(g: &Graph) -> Vec<(NodeId, &Node)> {
     v
 }
 
-fn check_graph_constants(g: &Graph, where_: &str, depth: usize, n_consts: &mut usize, out: &mut CaseOut) {
+fn check_graph_constants(g: &Graph, where_: &str, exact: bool, depth: usize, n_consts: &mut usize, out: &mut CaseOut) {
     for (_, node) in sorted_nodes(g) {
         if let Some(c) = node.as_constant() {
             *n_consts += 1;
-            check_constant(c, where_, out);
+            check_constant(c, where_, exact, out);
         } else if let Some(op) = node.as_operator() {
             if depth < 8 {
                 if let Some(sg) = op.operator().as_subgraph_op() {
                     for sub in sg.subgraphs() {
-                        check_graph_constants(sub, where_, depth + 1, n_consts, out);
+                        check_graph_constants(sub, where_, exact, depth + 1, n_consts, out);
                     }
                 }
             }
@@ -563,7 +572,7 @@ pub fn run_case(fmt: Fmt, bytes: &[u8], dir: Option<&Path>, exec: bool, progress
                 progress("constants");
                 let r = vcore::catch(|| {
                     let mut o = CaseOut::default();
-                    check_graph_constants(m.verif_graph(), e.name(), 0, &mut n_consts, &mut o);
+                    check_graph_constants(m.verif_graph(), e.name(), e.bounded(), 0, &mut n_consts, &mut o);
                     o
                 });
                 match r {
